@@ -2,16 +2,17 @@
 # Development aid (not a registered check): which lines of the repository do the quick tiers execute?
 # Builds the adapter with -C instrument-coverage (nightly, for its llvm-tools) against a scratch worktree of /repo, runs every
 # quick tier with a reduced budget and prints the uncovered regions of the files the properties are anchored in.
-# Usage: selftest/coverage.sh [budget] ; output: /tmp/verif-cov/report.txt, /tmp/verif-cov/show/<file>.txt ; cleans its worktree and build.
-B=${1:-8000}
+# Usage: selftest/coverage.sh [budget|full] [ids...] ; output: /tmp/verif-cov/report.txt, /tmp/verif-cov/show/<file>.txt ; cleans its worktree and build.
+B=${1:-8000}; shift; IDS=${@:-$(seq -f 'C%02g' 1 20)}
 cd "$(dirname "$0")/.."
 WT=/tmp/verif-cov-wt; OUT=/tmp/verif-cov
 TOOLS=$(dirname $(find /root/.rustup/toolchains/nightly-*/lib/rustlib -name llvm-profdata | head -1))
 rm -rf $OUT; mkdir -p $OUT/raw
 git -C /repo worktree remove --force $WT >/dev/null 2>&1
 git -C /repo worktree add -q --detach $WT HEAD || exit 2
-export VERIF_REPO=$WT VERIF_EXTRA_RUSTFLAGS='-C instrument-coverage' VERIF_CARGO_TOOLCHAIN=+nightly LLVM_PROFILE_FILE=$OUT/raw/%p-%m.profraw VERIF_BUDGET=$B VERIF_NO_REGRESS=
-for p in $(seq -f 'C%02g' 1 20); do ./check $p quick 2>&1 | grep -E "quick:|VIOLATION|INCONCL"; done
+export VERIF_REPO=$WT VERIF_EXTRA_RUSTFLAGS='-C instrument-coverage' VERIF_CARGO_TOOLCHAIN=+nightly LLVM_PROFILE_FILE=$OUT/raw/%p-%m.profraw VERIF_NO_REGRESS=
+[ "$B" = full ] || export VERIF_BUDGET=$B
+for p in $IDS; do ./check $p quick 2>&1 | grep -E "quick:|VIOLATION|INCONCL"; done
 TAG=$(python3 -c "import hashlib,os;print(hashlib.sha1(os.path.realpath('$WT').encode()).hexdigest()[:10])")
 $TOOLS/llvm-profdata merge --failure-mode=all -sparse $OUT/raw/*.profraw -o $OUT/all.profdata
 OBJS=""; for c in A B C D; do [ -f target/alt-$TAG/$c/release/sut ] && OBJS="$OBJS -object target/alt-$TAG/$c/release/sut"; done
